@@ -682,8 +682,36 @@ def _bound_names(stmts) -> set:
     return out
 
 
-def paths_of(fn: ast.FunctionDef, bind: Optional[dict] = None) -> List[Path]:
-    return PathEnum(fn, bind).run()
+def path_feasible(p: "Path") -> bool:
+    """False when two path conditions assign opposite truth values to the same atom (no store in between is modelled:
+    conditions are pure reads of parameters/attributes in the analysed functions)."""
+    f: Dict[str, bool] = {}
+    for c, t, _ in p.conds:
+        for a, pol in atoms(c, t):
+            if a in f and f[a] != pol:
+                return False
+            f[a] = pol
+    pf = path_facts(p)
+    for c, t, _ in p.conds:
+        core, truth = c, t
+        while isinstance(core, ast.UnaryOp) and isinstance(core.op, ast.Not):
+            core, truth = core.operand, not truth
+        if isinstance(core, ast.BoolOp):
+            isand = isinstance(core.op, ast.And)
+            vals = []
+            for v in core.values:
+                lits = atoms(v, True)
+                vals.append(pf[lits[0][0]] == lits[0][1] if len(lits) == 1 and lits[0][0] in pf else None)
+            if isand and truth is False and all(v is True for v in vals):
+                return False
+            if (not isand) and truth is True and all(v is False for v in vals):
+                return False
+    return True
+
+
+def paths_of(fn: ast.FunctionDef, bind: Optional[dict] = None, prune: bool = True) -> List[Path]:
+    ps = PathEnum(fn, bind).run()
+    return [p for p in ps if path_feasible(p)] if prune else ps
 
 
 def returns(paths: Iterable[Path]) -> List[Path]:
